@@ -1,4 +1,4 @@
-import PvlModel.Lemmas.ParserSpecs2
+import PvlModel.Lemmas.ParserTerm2
 
 /-! The loader-level specification of `parse()`, obtained from the Hoare specifications of the parser
     functions (`ParserSpecs`, `ParserSpecs2`).  C06, C09 and C15 are corollaries. -/
@@ -41,5 +41,49 @@ theorem parse_spec (g : Grammar) (d : Dec) (kind : ParserKind) (prior : List Int
   cases r with
   | ok m => simpa [Finished, EndSeen] using hs
   | error e => simpa [Hard] using hs
+
+/-- the model's `parse()` never runs out of the fuel `parseWith` gives it -/
+theorem parse_terminates (g : Grammar) (d : Dec) (kind : ParserKind) (prior : List Int) (text : Str) :
+    (parseWith g d kind prior text).outcome ≠ .error .fuel := by
+  unfold parseWith
+  simp only
+  generalize (if kind == ParserKind.omni then omniPrepass text else text) = doc
+  generalize lexAll g d doc = lx
+  obtain ⟨toks, tail⟩ := lx
+  simp only
+  have hs := triple_elim _ _ _ _
+    (moduleLoop_tm ⟨g, d, kind, doc, tail⟩ (fuelFor (toks.length + 2)) [] toks.length)
+    ⟨⟨toks, none, none, false⟩, [], [], none, false⟩ ⟨inv_initial _ toks, by simp [R]⟩
+  revert hs
+  generalize (moduleLoop ⟨g, d, kind, doc, tail⟩ [] (fuelFor (toks.length + 2))).run.run
+    ⟨⟨toks, none, none, false⟩, [], [], none, false⟩ = res
+  obtain ⟨r, st'⟩ := res
+  intro hs h
+  simp only at h
+  subst h
+  have := hs.2 rfl
+  simp [fuelFor] at this
+  omega
+
+
+/-- `parse_spec` without the fuel case -/
+theorem parse_spec_total (g : Grammar) (d : Dec) (kind : ParserKind) (prior : List Int) (text : Str) :
+    match (parseWith g d kind prior text).outcome with
+    | .ok _ =>
+      ((parseWith g d kind prior text).exhausted = true ∧ (lexAll g d (docOf kind text)).2 = .eof) ∨
+      (∃ t, (parseWith g d kind prior text).last = some t ∧ Tok.isEndStatement g t.text = true)
+    | .error e =>
+      e.isLexer = true ∨ ((∃ t, e = .parse t) ∧ (lexAll g d (docOf kind text)).2 = .eof) := by
+  have hs := parse_spec g d kind prior text
+  have ht := parse_terminates g d kind prior text
+  revert hs ht
+  cases (parseWith g d kind prior text).outcome with
+  | ok m => intro hs _; exact hs
+  | error e =>
+    intro hs ht
+    rcases hs with h | h | h
+    · exact Or.inl h
+    · exact Or.inr h
+    · subst h; exact absurd rfl ht
 
 end Pvl
